@@ -263,6 +263,11 @@ func runC06(c *Ctx) {
 		// "once published, no later one reuses its inputs": whatever the wallet creates is recorded
 		checkEveryRelevantTxIsRecorded(c, "C06-R1")
 		checkUnlockHoldSpansCreation(c, "C06-R4")
+		// "no coin a known transaction already spends is offered": a re-delivered credit is not written again, and a
+		// record is keyed by its transaction id (C01-R6's rules)
+		c.Borrow(runC01, "C01-R6", "C06-R1", func(k string) bool {
+			return strings.HasPrefix(k, "insert-guarded-by-same-store-lookup") || strings.HasPrefix(k, "record-hash-is-transaction-id")
+		})
 		// "not leased" is read from the lease bucket: a lease ends only by its owner, its expiry or a confirmed spend
 		// (C12-R5's rules) — not when an unconfirmed spend is recorded, which can be forgotten again
 		c.Borrow(runC12, "C12-R4", "C06-R1", func(k string) bool { return strings.HasPrefix(k, "lease-release-per-input") })
